@@ -134,7 +134,12 @@ fn classify(ctx: &Context, e: ExprRef, env: &HashMap<ExprRef, Val>) -> (String, 
         }
     }
     if n.op == Op::ArrayEqual {
-        parts.push("array-equality".into());
+        // the recorded finding of the dependency is "arrays that are equal at every index compare unequal (different
+        // defaults)"; the other direction - unequal arrays reported equal - is a different violation
+        match bigeval::eval(ctx, env, e) {
+            Ok(Val::BV(v, _)) if v.is_zero_big() => parts.push("array-equality:unequal-arrays-reported-equal".into()),
+            _ => parts.push("array-equality".into()),
+        }
     }
     (n.op.name().to_string(), parts.join(";"))
 }
@@ -250,6 +255,27 @@ fn validation_part(rep: &mut Report, tier: Tier, seed: u64) {
                     r.count("validation_points", 1);
                     let mut rng = Rng::new(seed, "C06-assign", (idx * 16 + a) as u64);
                     let model: miter::Model = syms.iter().map(|(si, t)| (Sh::Sym(*si, *t).build(&mut ctx), shapes::sym_name(*si, *t), sym_value(&mut rng, *t))).collect();
+                    // correlated arrays (last assignment of an instance): a second array symbol of the same type is a copy
+                    // of the first that differs in exactly one cell - the first, the last or a middle index - so that
+                    // array comparisons have to look at every index
+                    let mut model = model;
+                    if a + 1 == n_assign {
+                        let arrs: Vec<usize> = model.iter().enumerate().filter(|(_, m)| matches!(m.2, Val::Arr { .. })).map(|(k, _)| k).collect();
+                        if arrs.len() >= 2 && model[arrs[0]].2.ty() == model[arrs[1]].2.ty() {
+                            if let Val::Arr { iw, dw, default, map } = model[arrs[0]].2.clone() {
+                                let cell = match rng.below(3) {
+                                    0 => BigUint::from(0u32),
+                                    1 => bigeval::mask(iw),
+                                    _ => bigeval::mask(iw) >> 1u32,
+                                };
+                                let cur = map.get(&cell).cloned().unwrap_or(default.clone());
+                                let mut m2 = map.clone();
+                                m2.insert(cell, (cur + 1u32) & bigeval::mask(dw));
+                                model[arrs[1]].2 = Val::Arr { iw, dw, default, map: m2 };
+                                r.count("correlated_array_assignments", 1);
+                            }
+                        }
+                    }
                     let mut env = miter::model_env(&model);
                     // short-circuit: supply a value for one inner operator node that differs from its own value
                     let mut supplied: Option<(ExprRef, Val)> = None;
